@@ -208,12 +208,15 @@ theorem JCollOK.append {c : JColl} (h : JCollOK c) (i : Str) (d : Fields) (hi : 
     · exact h.2 p e
     · simp only [List.mem_singleton] at e; subst e; exact hd
 
-theorem json_insert_refines (fx : Fix) (ft : FloatText) (js : JState) (rs : RefState) (hrel : RelJ js rs)
+/-- insert, strong form: the reference store run with the driver's generated name never answers `notFresh`, the
+driver gives the SAME answer in every case — the id, or the in-contract errors `Err.dup` (explicit id in use) and
+`Err.badId` ("id" neither absent / None nor a string) — and the states stay related (unchanged on an error). -/
+theorem json_insert_refines_strong (fx : Fix) (ft : FloatText) (js : JState) (rs : RefState) (hrel : RelJ js rs)
     (coll : Str) (rec : Fields) :
     let jr := Json.step fx ft js (.insert coll rec)
     let name := match jr.2 with | .id n => n | _ => []
     let rr := Ref.step rs name (.insert coll rec)
-    rr.2 ≠ .err .notFresh ∧ ((∃ e, rr.2 = .err e) ∨ (jr.2 = rr.2 ∧ RelJ jr.1 rr.1)) := by
+    rr.2 ≠ .err .notFresh ∧ jr.2 = rr.2 ∧ RelJ jr.1 rr.1 := by
   have hc := hrel coll
   have hids := absColl_ids _ hc.1
   have auto : ∀ i, i = Json.findNextId (aget [] coll js) →
@@ -231,32 +234,41 @@ theorem json_insert_refines (fx : Fix) (ft : FloatText) (js : JState) (rs : RefS
   | none =>
     obtain ⟨h1, h2⟩ := auto _ rfl
     simp only [Json.step, Ref.step, hid, h1]
-    exact ⟨by simp, Or.inr ⟨by simp, h2⟩⟩
+    exact ⟨by simp, by simp, h2⟩
   | some v =>
     cases v with
     | null =>
       obtain ⟨h1, h2⟩ := auto _ rfl
       simp only [Json.step, Ref.step, hid, h1]
-      exact ⟨by simp, Or.inr ⟨by simp, h2⟩⟩
+      exact ⟨by simp, by simp, h2⟩
     | str i =>
       by_cases hm : i ∈ dkeys (aget [] coll js)
       · have h1 : (dget i (aget [] coll js)).isSome = true := (dget_isSome_iff _ _).mpr hm
         have h2 : (aget [] coll rs : Coll).ids.contains i = true := by rw [← hc.2, contains_iff, hids]; exact hm
         simp only [Json.step, Ref.step, hid, h1, h2, if_true]
-        exact ⟨by simp, Or.inl ⟨_, rfl⟩⟩
+        exact ⟨by simp, trivial, hrel⟩
       · have h1 : (dget i (aget [] coll js)).isSome = false := by
           rw [(dget_none_iff _ _).mpr hm]; rfl
         have h2 : (aget [] coll rs : Coll).ids.contains i = false := by rw [← hc.2, contains_false_iff, hids]; exact hm
         simp only [Json.step, Ref.step, hid, h1, h2, Bool.false_eq_true, if_false]
-        refine ⟨by simp, Or.inr ⟨by simp, ?_⟩⟩
+        refine ⟨by simp, by simp, ?_⟩
         rw [dset_of_not_mem _ _ _ hm, ← hc.2]
         exact hrel.aset coll _ _ (hc.1.append _ _ hm hid) (by simp [absColl])
-    | bool b => simp [Json.step, Ref.step, hid]
-    | int b => simp [Json.step, Ref.step, hid]
-    | num b => simp [Json.step, Ref.step, hid]
-    | date a b => simp [Json.step, Ref.step, hid]
-    | arr b => simp [Json.step, Ref.step, hid]
-    | obj b => simp [Json.step, Ref.step, hid]
+    | bool b => simp only [Json.step, Ref.step, hid]; exact ⟨by simp, trivial, hrel⟩
+    | int b => simp only [Json.step, Ref.step, hid]; exact ⟨by simp, trivial, hrel⟩
+    | num b => simp only [Json.step, Ref.step, hid]; exact ⟨by simp, trivial, hrel⟩
+    | date a b => simp only [Json.step, Ref.step, hid]; exact ⟨by simp, trivial, hrel⟩
+    | arr b => simp only [Json.step, Ref.step, hid]; exact ⟨by simp, trivial, hrel⟩
+    | obj b => simp only [Json.step, Ref.step, hid]; exact ⟨by simp, trivial, hrel⟩
+
+theorem json_insert_refines (fx : Fix) (ft : FloatText) (js : JState) (rs : RefState) (hrel : RelJ js rs)
+    (coll : Str) (rec : Fields) :
+    let jr := Json.step fx ft js (.insert coll rec)
+    let name := match jr.2 with | .id n => n | _ => []
+    let rr := Ref.step rs name (.insert coll rec)
+    rr.2 ≠ .err .notFresh ∧ ((∃ e, rr.2 = .err e) ∨ (jr.2 = rr.2 ∧ RelJ jr.1 rr.1)) :=
+  have h := json_insert_refines_strong fx ft js rs hrel coll rec
+  ⟨h.1, Or.inr h.2⟩
 
 
 
